@@ -31,7 +31,11 @@ func readRows(rows *sql.Rows) (t sqlTable, err error) {
 		return t, fmt.Errorf("ColumnTypes: %w", err)
 	}
 	for _, ct := range cts {
-		t.Types = append(t.Types, ct.DatabaseTypeName())
+		st := "<nil>"
+		if ct.ScanType() != nil {
+			st = ct.ScanType().String()
+		}
+		t.Types = append(t.Types, ct.DatabaseTypeName()+"/"+st)
 	}
 	for rows.Next() {
 		vals := make([]any, len(t.Cols))
@@ -54,9 +58,9 @@ func readRows(rows *sql.Rows) (t sqlTable, err error) {
 func expectedTable(a oracle.Answer, groupBy []string) sqlTable {
 	t := sqlTable{Cols: append(append([]string{}, groupBy...), "count")}
 	for range groupBy {
-		t.Types = append(t.Types, "TEXT")
+		t.Types = append(t.Types, "TEXT/string")
 	}
-	t.Types = append(t.Types, "BIGINT")
+	t.Types = append(t.Types, "BIGINT/int64")
 	if len(groupBy) == 0 {
 		t.Rows = [][]any{{int64(a.Count)}}
 		return t
